@@ -5,7 +5,6 @@ import (
 	"encoding/json"
 	"errors"
 	"net/http"
-	"sync"
 
 	"github.com/samsarahq/thunder/batch"
 	"github.com/samsarahq/thunder/reactive"
@@ -90,12 +89,11 @@ func (h *httpHandler) ServeHTTP(w http.ResponseWriter, r *http.Request) {
 		return
 	}
 
-	var wg sync.WaitGroup
 	e := h.executor
 
-	wg.Add(1)
+	done := make(chan struct{})
 	runner := reactive.NewRerunner(r.Context(), func(ctx context.Context) (interface{}, error) {
-		defer wg.Done()
+		defer close(done)
 
 		ctx = batch.WithBatching(ctx)
 
@@ -128,6 +126,12 @@ func (h *httpHandler) ServeHTTP(w http.ResponseWriter, r *http.Request) {
 		return nil, nil
 	}, DefaultMinRerunInterval, false)
 
-	wg.Wait()
+	// A rerunner whose context is cancelled before its first run never runs, so
+	// waiting for the first run alone would block forever. Stop waits for a run
+	// that did start.
+	select {
+	case <-done:
+	case <-r.Context().Done():
+	}
 	runner.Stop()
 }
